@@ -11,6 +11,8 @@
 (*   "noWait"          Serve does not wait for the connection goroutines              *)
 (*   "closeErrNoWait"  Serve skips the wait when closing the listener reports an error *)
 (*                     (it was already closed by the operator)                        *)
+(*   "lookupDiesOnCancel" the secret provider no longer answers after cancellation    *)
+(*                     (breaks the liveness property ShutdownCompletes)                *)
 (*   "gaugeStoreRace"  the exported goroutine gauge is STORED from a separately        *)
 (*                     updated counter (two steps) instead of being decremented        *)
 EXTENDS Integers, Sequences, FiniteSets, TLC
@@ -112,7 +114,9 @@ WaitDone == /\ acc = "waiting" /\ (wg = 0 \/ D("noWait")) /\ acc' = "returned"
             /\ UNCHANGED << ctx, lis, offered, cs, armed, inp, gate, hgate, wg, gAcc, gWg, pset, npk, sched >>
 
 \* ---- connection goroutine (serve / handle) ---------------------------------
-Start(c) == /\ cs[c] = "spawned" /\ gate[c]
+\* the admission lookup (SecretProvider.Get) is part of this step; with the defect the provider stops answering once the
+\* context is cancelled (a loader whose update loop exits on cancellation while Get still sends to it)
+Start(c) == /\ cs[c] = "spawned" /\ gate[c] /\ ~(D("lookupDiesOnCancel") /\ ctx = "cancelled")
             /\ cs' = [cs EXCEPT ![c] = "loop"] /\ gAcc' = gAcc + 1
             /\ wg' = IF D("addInGoroutine") THEN wg + 1 ELSE wg
             /\ gWg' = IF D("addInGoroutine") THEN gWg + 1 ELSE gWg
